@@ -346,6 +346,28 @@ class CertProperty:
                     progs.append({'name': 'epscycle%d' % k, 'modes': [{'name': 'M', 'patterns': pats, 'transitions': []}],
                                   'inputs': ['caab', 'xcaab', 'cabab']})
                     k += 1
+        # nested repetitions inside a concatenation / alternation (the empty iteration and the exact counts are observable),
+        # and meta characters written as escapes
+        k = 0
+        ops = ['*', '+', '?', '{2}', '{1,2}', '{2,}']
+        for inner in ops:
+            for outer in ops:
+                for ctx in ['a(?:%s)c', '(?:%s|z)q', 'x', '(%s)(%s)c']:
+                    if tier == 'quick' and k % 4 != 0:
+                        k += 1
+                        continue
+                    rep = '(?:b%s)%s' % (inner, outer)
+                    if ctx == 'x':
+                        pats = [{'p': 'x', 't': 7, 'la': {'pos': k % 8 < 4, 'p': rep + '>'}}, {'p': '[b>x]', 't': 8}]
+                    else:
+                        pats = [{'p': ctx.replace('%s', rep), 't': 1}, {'p': '[abcqz]', 't': 2}]
+                    progs.append({'name': 'nestrep%d' % k, 'modes': [{'name': 'M', 'patterns': pats, 'transitions': []}],
+                                  'inputs': ['ac', 'abbc', 'q', 'x>', 'xbb>']})
+                    k += 1
+        for i, e in enumerate(['\\x2e', '\\u{2e}', '\\x28', '\\x2a', '\\x5b', '\\x7c', '\\x5c']):
+            progs.append({'name': 'metaesc%d' % i, 'inputs': ['1.5', '1x5', 'a(b'],
+                          'modes': [{'name': 'M', 'patterns': [{'p': '[0-9]+' + e + '[0-9]+', 't': 1}, {'p': '[0-9]+', 't': 2}, {'p': '[a-z]+', 't': 3},
+                                                               {'p': 'q', 't': 4, 'la': {'pos': True, 'p': e}}], 'transitions': []}]})
         # shared token types: several patterns of one mode with the SAME token type (legal; only the priority
         # among them is affected by known finding D8, the accepted languages per token type are not): chains of
         # different lengths over one class need several refinement rounds of the minimizer, and terminal_ids has
